@@ -5,6 +5,8 @@ From Coq Require Import List NArith.
 From Goit Require Import Bytes Sha1 Obj Tree BytesFacts ObjFacts TreeFacts.
 From Goit Require Import Index World Repo Inv SnapshotFacts.
 From Goit Require Import Bridge.
+From Goit Require Import IndexFacts DiffFacts ExactFacts BranchFacts RestoreFacts.
+From Goit Require TreeUniqueFacts.
 Import ListNotations.
 Local Open Scope N_scope.
 
@@ -100,3 +102,20 @@ Print Assumptions C05_reset_reads_the_snapshot.
 Print Assumptions C05_reset_restores_what_was_staged.
 Print Assumptions C05_invariants_on_every_history.
 Print Assumptions C05_source_patterns_are_the_models.
+
+(* every tree Goit wrote, read back by Goit's reader, is a well-formed item tree whose flattening is a
+   canonical list of valid entries and in which no directory name occurs twice at one level -- on every
+   history, for the tree of every stored commit, and in particular for HEAD's *)
+Theorem C05_stored_trees_read_back_unique : forall w,
+  Reachable w -> w_coll w = false -> SmallStore (w_objs w) -> TreeUniqueFacts.SnapshotsUnique (w_objs w).
+Proof. exact TreeUniqueFacts.reachable_unique. Qed.
+
+Theorem C05_head_tree_reads_back : forall w c ns,
+  Reachable w -> w_coll w = false -> SmallStore (w_objs w) ->
+  ctx_of w = Some c -> head_nodes c w = Some ns ->
+  exists its, ns = map node_of its /\ Forall wf_item its /\
+              Canonical (flat_items [] its) /\ Forall valid_entry (flat_items [] its) /\
+              nodes_unique ns.
+Proof. exact TreeUniqueFacts.reachable_head_nodes_u. Qed.
+Print Assumptions C05_stored_trees_read_back_unique.
+Print Assumptions C05_head_tree_reads_back.
